@@ -119,7 +119,8 @@ func TestVerifSCConc(t *testing.T) {
 		}
 		// sequential reference on an identical classifier (the lazy sets of the concurrent one stay unbuilt)
 		ref := mk()
-		ref.MinDiffRatio = []float64{ref.MinDiffRatio, 0, -1, 0.5}[r%4]
+		mdr := []float64{ref.MinDiffRatio, 0, -1, 0.5}[r%4]
+		ref.MinDiffRatio = mdr
 		for i, in := range inputs {
 			rec.mm(ref, cid, in, nil, fmt.Sprintf("r%d|mm|%d", r, i))
 			rec.nmFloor(ref, cid, in, fmt.Sprintf("r%d|nm|%d", r, i))
@@ -127,10 +128,25 @@ func TestVerifSCConc(t *testing.T) {
 		c := mk()
 		// the exported option of the length pre-filter is rarely touched; "consider every value" is any ratio <= 0.  Set before the
 		// first concurrent calls: reading an option must not write it (nothing but the race detector can see such a write)
-		c.MinDiffRatio = ref.MinDiffRatio
-		VerifSink = sink.hook
+		c.MinDiffRatio = mdr // (not ref's field: whatever the calls on ref did to it stays with ref)
 		var wg sync.WaitGroup
 		var emu sync.Mutex
+		if mdr <= 0 {
+			// the very first calls on this classifier are NearestMatch calls released together (no hook events, no writer
+			// in between: nothing orders them but the read lock they share)
+			first := make(chan struct{})
+			for i := 0; i < callers; i++ {
+				wg.Add(1)
+				go func(i int) {
+					defer wg.Done()
+					<-first
+					c.NearestMatch(inputs[i])
+				}(i)
+			}
+			close(first)
+			wg.Wait()
+		}
+		VerifSink = sink.hook
 		for i := 0; i < callers; i++ {
 			wg.Add(1)
 			go func(i int) {
@@ -208,7 +224,7 @@ func TestVerifSCConc(t *testing.T) {
 		// many calls in flight at once (every call starts a goroutine per known value, every inexact candidate one more): whatever
 		// bounds or pools the work must not make the calls wait for each other for ever.  A watchdog ends the run if they do.
 		if r%5 == 1 {
-			many := vuEnvInt("VERIF_MANY", 96)
+			many := vuEnvInt("VERIF_MANY", 256)
 			VerifSink = nil // results and termination are what this phase is about; 96 more threads would only slow the happens-before validation
 			doneAll := make(chan struct{})
 			go func() {
@@ -216,31 +232,51 @@ func TestVerifSCConc(t *testing.T) {
 				case <-doneAll:
 				case <-time.After(time.Duration(vuEnvInt("VERIF_HANG_S", 120)) * time.Second):
 					emu.Lock()
-					out.Emit(map[string]interface{}{"ev": "hang", "what": fmt.Sprintf("%d concurrent MultipleMatch / NearestMatch calls on near copies of %d values did not all return", many, nvals)})
+					out.Emit(map[string]interface{}{"ev": "hang", "what": fmt.Sprintf("%d concurrent MultipleMatch / NearestMatch calls on near copies of two long values did not all return", many)})
 					out.Flush()
 					os.Exit(3)
 				}
 			}()
+			// a classifier of its own with two long values (long diffs keep every call busy), all calls released together
+			long := func(k int) string {
+				var w []string
+				for rep := 0; rep < 6; rep++ {
+					w = append(w, strings.Fields(vals[k%nvals])...)
+					w = append(w, fmt.Sprintf("stanza%dof%d", rep, k))
+				}
+				return strings.Join(w, " ")
+			}
+			mc := New(DefaultConfidenceThreshold, FlattenWhitespace)
+			mc.AddValue("long1", long(0))
+			mc.AddValue("long2", long(1))
+			noisy := func(k int) string {
+				w := strings.Fields(long(k))
+				for x := 7; x < len(w); x += 23 {
+					w[x] = "zzqx"
+				}
+				return "qqzv preamble words " + strings.Join(w, " ") + " vvkq trailing words"
+			}
+			want1 := fmt.Sprint(len(mc.MultipleMatch(noisy(0))), len(mc.MultipleMatch(noisy(1))))
 			var mwg sync.WaitGroup
 			wrong := make([]string, many)
+			start := make(chan struct{})
 			for i := 0; i < many; i++ {
 				mwg.Add(1)
 				go func(i int) {
 					defer mwg.Done()
-					w := strings.Fields(vals[i%nvals])
-					w[len(w)/2] = "zzqx" // an inexact copy: the diffing path
-					in := "qqzv " + strings.Join(w, " ") + " vvkq " + vals[(i+1)%nvals]
-					ms := c.MultipleMatch(in)
-					found := false
-					for _, m := range ms {
-						found = found || (m.Name == fmt.Sprintf("k%d", (i+1)%nvals+1) && m.Confidence == 1.0)
+					<-start
+					a, b := mc.MultipleMatch(noisy(i%2)), mc.MultipleMatch(noisy((i+1)%2))
+					got := fmt.Sprint(len(a), len(b))
+					if i%2 == 1 {
+						got = fmt.Sprint(len(b), len(a))
 					}
-					if !found {
-						wrong[i] = fmt.Sprintf("call %d: the verbatim copy of k%d is not among %d matches", i, (i+1)%nvals+1, len(ms))
+					if got != want1 || len(a) == 0 {
+						wrong[i] = fmt.Sprintf("call %d: %s matches for the two noisy copies, alone %s", i, got, want1)
 					}
-					c.NearestMatch(in)
+					mc.NearestMatch(noisy(i % 2))
 				}(i)
 			}
+			close(start)
 			mwg.Wait()
 			close(doneAll)
 			VerifSink = sink.hook
